@@ -321,7 +321,12 @@ def _divmod(chk, ctx) -> None:
             conds = [unversion(e.term) for e in body if e.kind == 'assume']
             amounts = {T.key(s): s for _, s in sinks}
             if not sinks:
-                # allowed only when the path skips a zero amount
+                # allowed only when the path skips a part that is zero: the test must be on the part itself
+                lv = _loop_var_term(p, loop)
+                part = T.add(Q, R) if any(_is_first_guard(c, lv, it) for c in conds) else Q
+                if T.mk_not(T.truthy(part)) not in conds:
+                    quo_each = False
+                    detail = f'a part is not handed out although it need not be zero (the skip is not a test of the part {T.show(part)})'
                 continue
             if len(amounts) != 1:
                 quo_each = False
